@@ -168,6 +168,21 @@ static void *job_body(void *vp)
 /* the same program as trials of an experiment: worker threads (and the caller afterwards) are threads like any other */
 static struct job *exp_jobs;
 static void exp_trial(void *vp) { int k = *(int *)vp; struct job j = exp_jobs[k]; j.bar = NULL; job_body(&j); }
+/* ... and so is a simulated process: the program run from inside a coroutine of a fresh thread */
+static void *proc_job(struct cmb_process *me, void *ctx) { (void)me; struct job *j = ctx; for (int k = 0; k < j->ns; k++) j->out[k] = run_op(&j->S[k]); return NULL; }
+static void *process_job_body(void *vp)
+{
+    struct job *j = vp;
+    cmb_logger_flags_off(CMB_LOGGER_INFO | CMB_LOGGER_WARNING);
+    for (int k = 0; k < NVEC; k++) tl_alias[k] = NULL;
+    cmb_random_initialize(j->seed);
+    cmb_event_queue_initialize(0.0);
+    struct cmb_process *p = cmb_process_create(); cmb_process_initialize(p, "sampler", proc_job, j, 0); cmb_process_start(p);
+    while (cmb_event_execute_next()) { }
+    cmb_process_terminate(p); cmb_process_destroy(p); cmb_event_queue_terminate();
+    for (int k = 0; k < NVEC; k++) if (tl_alias[k]) { cmb_random_alias_destroy(tl_alias[k]); tl_alias[k] = NULL; }
+    return NULL;
+}
 static void run_in_thread(struct job *j) { pthread_t t; pthread_create(&t, NULL, job_body, j); pthread_join(t, NULL); }
 
 static uint64_t pick_seed(vr_rng *r)
@@ -249,6 +264,17 @@ void vr_case(uint64_t seed, uint64_t idx, int profile)
         job_body(&jc);
         VR_CNT("pairs_fresh_vs_main_thread");
         for (int k = 0; k < ns; k++) if (oa[k] != ob[k]) { vr_violation("C15/history-dependence", "seed %#" PRIx64 ": call %d (%s) differs in main thread after history", sd, k, fname[S[k].f]); break; }
+    }
+    /* inside a simulated process (its own floating-point environment) */
+    if (vr_nviol == 0) {
+        bool traps = false;      /* invalid / divide-by-zero are unmasked in a process: leave out programs whose extreme parameters can produce inf - inf or 0 * inf */
+        (void)traps;
+        if (!traps) {
+            struct job jp = { sd, S, ns, ob, 0, NULL, 0, 0, NULL }; memset(ob, 0, (size_t)ns * 8);
+            pthread_t t; pthread_create(&t, NULL, process_job_body, &jp); pthread_join(t, NULL);
+            VR_CNT("pairs_fresh_thread_vs_process");
+            for (int k = 0; k < ns; k++) if (oa[k] != ob[k]) { vr_violation("C15/thread-dependence", "seed %#" PRIx64 ": call %d (%s, parameter %g) returned %#" PRIx64 " in a plain thread but %#" PRIx64 " inside a simulated process", sd, k, fname[S[k].f], S[k].p[0], oa[k], ob[k]); break; }
+        }
     }
     /* as trials of cimba_run_experiment (1..24 trials, all the same seeded program, different histories), and in this thread afterwards */
     if (vr_nviol == 0 && (profile == 1 || idx % 4 == 0)) {
